@@ -27,7 +27,14 @@ package stringclassifier
 //@   modifies nothing
 //@   props C13 C14
 //@
+//@ prove ratio-of-equal-lengths-is-one
+//@   arith bv
+//@   claim forall n int :: n > 0 ==> float64(n) / float64(n) == 1.0
+//@   props C13
+//@
 //@ func diffRatio
+//@   uses ratio-of-equal-lengths-is-one
+//@   ensures len(s1) == len(s2) ==> result == 1.0
 //@   modifies nothing
 //@   props C13
 //@
@@ -257,7 +264,17 @@ package stringclassifier
 //@   callreq Push requires held(&mu) == 2
 //@   props C13 C14
 //@
+//@ // C13 (NearestMatch of a known value): if the normalised unknown text equals
+//@ // the normalised text of a registered value (and the length filter admits equal
+//@ // lengths), the queue holds exactly one match: that value's key, Confidence 1.0,
+//@ // spanning the whole text. hasExact/isExact speak about the map as it is when
+//@ // the read lock is held; entries are never replaced (rely).
+//@ spec exactKey(c *Classifier, k string, norm string) bool = (k in c.values) && c.values[k] != nil && c.values[k].normalizedValue == norm
+//@ spec exactHit(c *Classifier, x any, norm string) bool = typeis(x, "*Match") && unbox(x, "*Match") != nil && unbox(x, "*Match").Confidence == 1.0 && unbox(x, "*Match").Offset == 0 && unbox(x, "*Match").Extent == len(norm) && (exists k string :: exactKey(c, k, norm) && c.values[k].key == unbox(x, "*Match").Name)
 //@ func (*Classifier).nearestMatch
+//@   ensures [exact-value-found] (exists k string :: old(exactKey(c, k, normOf(c, unknown)))) && len(normOf(c, unknown)) > 0 && c.MinDiffRatio <= 1.0 ==> len(result.heap.a) == 1 && exactHit(c, result.heap.a[0], normOf(c, unknown))
+//@   loop 1 invariant forall k string :: visited(k) ==> !exactKey(c, k, normOf(c, old(unknown))) || c.MinDiffRatio > 1.0
+//@   loop 1 invariant len(pq.heap.a) == 0
 //@   loop 2 invariant wgtok(&wg) == len(likely) - (rangeindex + 1) && wgst(&wg) == 1
 //@   requires wfC(c) && held(&c.muValues) == 0
 //@   ensures held(&c.muValues) == 0
@@ -273,6 +290,7 @@ package stringclassifier
 //@   props C13 C14
 //@
 //@ func (*Classifier).NearestMatch
+//@   ensures [exact-value-found] (exists k string :: old(exactKey(c, k, normOf(c, s)))) && len(normOf(c, s)) > 0 && c.MinDiffRatio <= 1.0 ==> result.Confidence == 1.0 && result.Offset == 0 && result.Extent == len(normOf(c, s)) && (exists k string :: exactKey(c, k, normOf(c, s)) && c.values[k].key == result.Name)
 //@   requires wfC(c) && held(&c.muValues) == 0
 //@   ensures fresh(result) && (result.Confidence == 0.0 && result.Offset == 0 && result.Extent == 0 || okMatchP(result, normOf(c, s)))
 //@   modifies nothing
